@@ -36,6 +36,7 @@
 
 /* ---- ghost inputs chosen by the stubs ---- */
 static unsigned h_lazy_calls; static const char* h_lazy_in; static char* h_lazy_out; static size_t h_lazy_ret;
+static char h_lazy_at_k;   /* byte g_k (arbitrary but fixed index) of the normalised phrase as utf8_nfkd_lazy returned it */
 static unsigned h_split_calls; static int h_split_ret;
 static unsigned h_pd_calls; static polyseed_status h_pd_status; static uint_fast16_t h_pd_idx[POLYSEED_NUM_WORDS];
 static const polyseed_lang* h_pd_lang; static const polyseed_lang** h_pd_arg_lang_out; static const polyseed_lang* h_pd_arg_lang;
@@ -51,12 +52,14 @@ size_t contract_nfkd_lazy(const char* str, polyseed_str norm) {
     __CPROVER_assume(r < POLYSEED_STR_SIZE);
     norm[r] = '\0';
     h_lazy_ret = r;
+    h_lazy_at_k = (g_k < POLYSEED_STR_SIZE) ? norm[g_k] : 0;
     return r;
 }
 
 int contract_str_split(char* str, polyseed_phrase words) {
     h_split_calls++;
     __CPROVER_assert(str == h_lazy_out && str[h_lazy_ret] == '\0', "str_split.requires: a NUL-terminated polyseed_str");
+    __CPROVER_assert(g_k >= POLYSEED_STR_SIZE || str[g_k] == h_lazy_at_k, "decode: the tokeniser receives the normalised phrase unmodified (arbitrary position): nothing is trimmed, collapsed or rewritten in between");
     int r = nondet_int();
     __CPROVER_assume(r >= 0 && r <= POLYSEED_NUM_WORDS + 1);
     /* assigns: the string up to its terminator (spaces -> NUL), words[0 .. min(r,16)) */
@@ -124,6 +127,7 @@ void polyseed_data_store(const polyseed_data* data, polyseed_storage storage) { 
 polyseed_status polyseed_data_load(const polyseed_storage storage, polyseed_data* data) { __CPROVER_assert(0, "unexpected call"); return 0; }
 
 void harness(void) {
+    GHOST_INDICES_ARBITRARY();
     deps_install();
     __CPROVER_assume(TABLE_OK);
     reserved_features = nondet_unsigned();
